@@ -1194,15 +1194,143 @@ def run_history(ctx, case, gt, prop, nops, regime=None, focus=None,
             for k, v in edits_since.items():
                 ctx.count("edit_then_lookup:" + k, v)
             edits_since.clear()
-            probe(ctx, real, model, model.gen_queries(rnd, nqueries), want)
+            qs = model.gen_queries(rnd, nqueries)
+            case.ops.append({"op": "probe", "queries": [q_json(q)
+                                                        for q in qs]})
+            probe(ctx, real, model, qs, want)
             ctx.count("check_points")
             ctx.seen("states", model.state_key())
-    probe(ctx, real, model, model.gen_queries(
-        rnd, nqueries * 2, complete_points=True), want)
+    qs = model.gen_queries(rnd, nqueries * 2, complete_points=True)
+    case.ops.append({"op": "probe", "queries": [q_json(q) for q in qs]})
+    probe(ctx, real, model, qs, want)
     if prop == "C06":
         check_extents(ctx, real, model)
     if prop == "C13":
         check_store(ctx, real, model)
     ctx.count("check_points")
     ctx.count("history_ops", len(case.ops))
-    ctx.seen("nontrivial", case.ops)
+    ctx.seen("nontrivial", [o for o in case.ops if o["op"] != "probe"])
+
+
+# ---------------------------------------------------------------------------
+def q_json(q):
+    return q if isinstance(q, int) else [q.start, q.stop, q.step]
+
+
+def q_obj(j):
+    return j if isinstance(j, int) else range(j[0], j[1], j[2])
+
+
+def applicable(model, op):
+    """Can this recorded op run on the model as it is (after other ops of
+    the history were removed by the shrinker)?"""
+    k = op["op"]
+    ok = lambda i, tab: i is None or i in tab
+    if k in ("probe", "noop", "new_ir"):
+        return True
+    if k == "new_mod":
+        return op["ir"] in model.irs
+    if k == "new_sec":
+        return op["mod"] in model.mods
+    if k == "new_iv":
+        return ok(op["sec"], model.secs)
+    if k == "new_blk":
+        return ok(op["iv"], model.ivs)
+    if k in ("blk_off", "blk_size"):
+        return op["id"] in model.blks
+    if k in ("iv_addr", "iv_size"):
+        return op["id"] in model.ivs
+    if k == "mv_blk":
+        return op["id"] in model.blks and ok(op["iv"], model.ivs)
+    if k == "mv_iv":
+        return op["id"] in model.ivs and ok(op["sec"], model.secs)
+    if k == "rm_blk":
+        return op["id"] in model.blks and model.blks[op["id"]]["iv"]
+    if k == "rm_iv":
+        return op["id"] in model.ivs and model.ivs[op["id"]]["sec"]
+    if k == "mv_sec":
+        return op["id"] in model.secs and ok(op["mod"], model.mods)
+    if k == "mv_mod":
+        return op["id"] in model.mods and ok(op["ir"], model.irs)
+    if k == "blk_update":
+        return op["iv"] in model.ivs and all(b in model.blks
+                                             for b in op["ids"])
+    if k in ("blk_pop", "ex_popitem", "save_load"):
+        return False  # implementation-chosen / heavy: dropped when shrinking
+    if k.startswith("ex_"):
+        if op["iv"] not in model.ivs:
+            return False
+        if k in ("ex_del", "ex_pop"):
+            return op["key"] in model.exprs[op["iv"]]
+        if k == "ex_assign_other":
+            return op["src"] in model.ivs
+        return True
+    return False
+
+
+def replay_ops(ctx, gt, ops, prop, seed_str="replay"):
+    """Execute a recorded history (edits and probes) as given; raises the
+    Discrepancy it produces, returns None if it runs clean."""
+    import random
+    model = Model(random.Random(seed_str), "small")
+    real = Real(gt, ctx, random.Random(seed_str + ":uuid"))
+    want = {"C05": ("C05",), "C06": ("C06",), "C13": ("C13",)}[prop]
+    for op in ops:
+        if not applicable(model, op):
+            continue
+        if op["op"] == "probe":
+            if prop == "C06":
+                check_extents(ctx, real, model)
+            probe(ctx, real, model, [q_obj(j) for j in op["queries"]], want)
+            continue
+        observed = real.apply(op, model)
+        if observed == "skipped":
+            continue
+        model.apply(op, observed)
+        if prop == "C13":
+            check_store(ctx, real, model)
+    return None
+
+
+def shrink(ctx, gt, ops, prop, mechanism, cpu_s=20.0):
+    """Delta debugging on the recorded history: drop chunks of operations
+    (and queries of the last probe) while the same mechanism still fires."""
+    import time
+
+    def fails(cand):
+        try:
+            replay_ops(ctx, gt, cand, prop)
+        except Discrepancy as d:
+            return d.mechanism == mechanism
+        except Exception:
+            return False
+        return False
+
+    t0 = time.process_time()
+    if not fails(ops):
+        return None  # does not reproduce from the recorded ops alone
+    cur = list(ops)
+    n = 2
+    while len(cur) >= 2 and time.process_time() - t0 < cpu_s:
+        chunk = max(1, len(cur) // n)
+        reduced = False
+        for i in range(0, len(cur), chunk):
+            cand = cur[:i] + cur[i + chunk:]
+            if cand and fails(cand):
+                cur = cand
+                n = max(n - 1, 2)
+                reduced = True
+                break
+        if not reduced:
+            if chunk == 1:
+                break
+            n = min(len(cur), n * 2)
+    # shrink the query list of the last probe
+    if cur and cur[-1]["op"] == "probe" and len(cur[-1]["queries"]) > 1:
+        qs = cur[-1]["queries"]
+        for q in list(qs):
+            cand = cur[:-1] + [{"op": "probe", "queries": [q]}]
+            if fails(cand):
+                cur = cand
+                break
+    return cur
